@@ -2089,3 +2089,306 @@ def run_C07(ctx):
 
 
 register("C07", ["Guard.Properties.C07"], run_C07, needs_cli=True)
+
+
+# =============================================================================== C18
+
+def rust_float_str(f):
+    """Rust's `{}` for f64: shortest round-trip digits in positional notation, no trailing `.0`"""
+    import decimal
+    if f != f:
+        return "NaN"
+    if f in (float("inf"), float("-inf")):
+        return "inf" if f > 0 else "-inf"
+    d = decimal.Decimal(repr(f))
+    s = format(d, "f")
+    if "." in s:
+        s = s.rstrip("0").rstrip(".")
+    if s in ("-0", ""):
+        s = "-0" if str(f).startswith("-") else "0"
+    return s
+
+
+def ref_function(name, args, raw_args):
+    """independent reference: list of result values (Python), or ('err',) ; `args` = resolved values of arg 0"""
+    import re as _re, urllib.parse, datetime
+    def is_str(v):
+        return isinstance(v, str)
+    if name == "count":
+        return [len(args)]
+    if name in ("to_upper", "to_lower"):
+        return [(v.upper() if name == "to_upper" else v.lower()) for v in args if is_str(v)]
+    if name == "url_decode":
+        out = []
+        for v in args:
+            if is_str(v):
+                try:
+                    out.append(urllib.parse.unquote(v, errors="strict"))
+                except UnicodeDecodeError:
+                    pass
+        return out
+    if name == "substring":
+        i, j = raw_args[1], raw_args[2]
+        out = []
+        for v in args:
+            if is_str(v) and all(ord(c) < 128 for c in v) and 0 <= i < j <= len(v):
+                out.append(v[i:j])
+        return out
+    if name == "join":
+        d = raw_args[1]
+        if any(not is_str(v) for v in args) or raw_args[3]:
+            return ("err",)
+        return [d.join(args)]
+    if name == "json_parse":
+        out = []
+        for v in args:
+            if is_str(v):
+                try:
+                    x = json.loads(v)
+                    if isinstance(x, int) and not -2 ** 63 <= x < 2 ** 63:
+                        return ("maybe-err",)      # beyond i64: outside the property's domain (loaders wrap)
+                    out.append(x)
+                except ValueError:
+                    return ("maybe-err",)
+        return out
+    if name == "parse_int":
+        out = []
+        for v in args:
+            if isinstance(v, bool):
+                continue
+            if is_str(v):
+                if _re.fullmatch(r"[+-]?[0-9]+", v) and -2 ** 63 <= int(v) < 2 ** 63:
+                    out.append(int(v))
+                else:
+                    return ("err",)
+            elif isinstance(v, int):
+                out.append(v)
+            elif isinstance(v, float):
+                t = int(v) if abs(v) < 1e300 else (2 ** 63 - 1 if v > 0 else -2 ** 63)
+                out.append(max(-2 ** 63, min(2 ** 63 - 1, t)))
+        return out
+    if name == "parse_float":
+        out = []
+        for v in args:
+            if isinstance(v, bool):
+                continue
+            if is_str(v):
+                if _re.fullmatch(r"[+-]?([0-9]+\.?[0-9]*|\.[0-9]+)([eE][+-]?[0-9]+)?", v):
+                    out.append(float(v))
+                else:
+                    return ("err",) if not _re.fullmatch(r"[+-]?(inf|infinity|nan)", v, _re.I) else ("maybe-err",)
+            elif isinstance(v, (int, float)):
+                out.append(float(v))
+        return out
+    if name == "parse_string":
+        out = []
+        for v in args:
+            if isinstance(v, bool):
+                out.append("true" if v else "false")
+            elif isinstance(v, int):
+                out.append(str(v))
+            elif isinstance(v, float):
+                out.append(rust_float_str(v))
+            elif is_str(v):
+                out.append(v)
+        return out
+    if name == "parse_boolean":
+        out = []
+        for v in args:
+            if isinstance(v, bool):
+                out.append(v)
+            elif is_str(v):
+                if v.lower() in ("true", "false"):
+                    out.append(v.lower() == "true")
+                else:
+                    return ("err",)
+        return out
+    if name == "parse_epoch":
+        out = []
+        for v in args:
+            if is_str(v):
+                try:
+                    if not _re.fullmatch(r"\d{4}-\d\d-\d\d[Tt ]\d\d:\d\d:\d\d(\.\d+)?([Zz]|[+-]\d\d:\d\d)", v):
+                        return ("err",)
+                    dt = datetime.datetime.fromisoformat(v.replace("Z", "+00:00").replace("z", "+00:00").replace("t", "T"))
+                    out.append(int(dt.timestamp()) if dt.timestamp() >= 0 or dt.microsecond == 0 else int(dt.timestamp()) - 1)
+                except ValueError:
+                    return ("err",)
+        return out
+    if name == "regex_replace":
+        rx, rep = raw_args[1], raw_args[2]
+        out = []
+        for v in args:
+            if is_str(v):
+                acc = ""
+                tmpl = _re.sub(r"\$\{(\d+)\}", r"\\g<\1>", rep)
+                for m in _re.finditer(rx, v):
+                    acc += m.expand(tmpl)
+                out.append(acc)
+        return out
+    return None
+
+
+C18_DOC = {"s": ["abc", "Hello World", "", "10", "-7", "x%20y%2Fz", "true", "FALSE", "1.5", "2019-01-01T00:00:00Z",
+                 "arn:aws:s3", "a", "bb", "{\"k\": [1, 2, {\"z\": null}]}", "[1, \"a\"]", "9223372036854775808", "é", "1e3"],
+           "n": [0, 1, -5, 42, 9223372036854775807], "f": [1.5, 10.0, -2.5, 1e21, 5e-324], "b": [True, False], "z": None,
+           "m": {"a": "x", "b": "y"}, "mixed": ["a", 1, True, None, "b", [1], {"q": 1}], "one": "abcdef", "e": [],
+           "json": "{\"a\": [1, 2.5, \"s\", true, null], \"b\": {\"c\": \"d\"}}", "ints": ["1", "2", "30"], "strs": ["a", "b", "c"]}
+
+
+def c18_cases(ctx, rng):
+    fs = ["count", "to_upper", "to_lower", "url_decode", "substring", "join", "json_parse", "parse_int", "parse_float",
+          "parse_string", "parse_boolean", "parse_epoch", "regex_replace"]
+    queries = ["s[*]", "n[*]", "f[*]", "b[*]", "mixed[*]", "one", "strs[*]", "ints[*]", "json", "zz", "s[*].zz", "e[*]", "m.*",
+               "mixed", "z", "s[0]", "s[3]", "s[4]", "s[5]", "s[6]", "s[7]", "s[8]", "s[9]", "s[15]", "s[16]", "s[17]", "some s[*].zz"]
+    cases = []
+    per = 6 if ctx.thorough() else 2
+    for f in fs:
+        for q in queries:
+            for _ in range(per if f in ("substring", "join", "regex_replace") else 1):
+                raw = [q]
+                if f == "substring":
+                    i, j = rng.choice([0, 0, 1, 2, 5, 65536]), rng.choice([1, 2, 3, 6, 70000, 65539])
+                    call = "substring(%s, %d, %d)" % (q, i, j)
+                    raw = [q, i, j]
+                elif f == "join":
+                    d = rng.choice([",", "", "-", " | "])
+                    call = "join(%s, \"%s\")" % (q, d)
+                    raw = [q, d, None, False]
+                elif f == "regex_replace":
+                    rx, rep = rng.choice([("^(a)(.*)$", "${2}-${1}"), ("(b+)", "<${1}>"), ("^arn:(\\w+):(\\w+)", "${2}/${1}"), ("x", "y")])
+                    call = "regex_replace(%s, \"%s\", \"%s\")" % (q, rx, rep)
+                    raw = [q, rx, rep]
+                else:
+                    call = "%s(%s)" % (f, q)
+                for form in ("let-rule", "let-file", "inline-rhs") if _ == 0 else ("let-rule",):
+                    if form == "let-rule":
+                        rules = "rule t {\nlet r = %s\n%%r == \"__never__\"\n}\n" % call
+                    elif form == "let-file":
+                        rules = "let r = %s\nrule t {\n%%r == \"__never__\"\n}\n" % call
+                    else:
+                        rules = "rule t {\nprobe == %s\n}\n" % call
+                    cases.append({"rules": rules, "data": json.dumps(dict(C18_DOC, probe="__never__")), "f": f, "q": q, "raw": raw, "form": form})
+    # composites
+    for n_ in [0, 1, -5, 42, 9223372036854775807, -9223372036854775808]:
+        cases.append({"rules": "rule t {\nlet a = parse_string(v)\nlet r = parse_int(%a)\n%r == \"__never__\"\n}\n",
+                      "data": json.dumps({"v": n_}), "f": "roundtrip-int", "q": "v", "raw": [n_], "form": "composite"})
+    for dval in [{"a": [1, 2.5, "s", True, None], "b": {"c": "d"}}, [1, [2, [3]]], {"k": ""}, []]:
+        cases.append({"rules": "rule t {\nlet r = json_parse(text)\n%r == orig\n}\n",
+                      "data": json.dumps({"text": json.dumps(dval), "orig": dval}), "f": "roundtrip-json", "q": "text", "raw": [dval], "form": "composite"})
+    return cases
+
+
+def resolve_ref_query(q, doc):
+    """resolved values of the (simple) argument queries used above; (values, has_unresolved)"""
+    some = q.startswith("some ")
+    if some:
+        q = q[5:]
+    import re as _re
+    cur, unres = [doc], False
+    for part in _re.findall(r"[A-Za-z]+|\[\*\]|\[\d+\]|\*", q):
+        nxt = []
+        for v in cur:
+            if part == "[*]":
+                if isinstance(v, list):
+                    if not v:
+                        unres = True
+                    nxt += v
+                else:
+                    nxt.append(v)
+            elif part == "*":
+                if isinstance(v, dict):
+                    nxt += list(v.values())
+                elif isinstance(v, list):
+                    nxt += v
+                else:
+                    nxt.append(v)
+            elif part.startswith("["):
+                i = int(part[1:-1])
+                if isinstance(v, list) and i < len(v):
+                    nxt.append(v[i])
+                else:
+                    unres = True
+            else:
+                if isinstance(v, dict) and part in v:
+                    nxt.append(v[part])
+                else:
+                    unres = True
+        cur = nxt
+    return cur, unres        # `some` on a function ARGUMENT does not drop unresolved members (only `let v = some q` does)
+
+
+def failing_from_values(tree, acc):
+    cont = tree["container"]
+    if isinstance(cont, dict) and "ClauseValueCheck" in cont and isinstance(cont["ClauseValueCheck"], dict):
+        (variant, body), = cont["ClauseValueCheck"].items()
+        if variant in ("Comparison", "InComparison"):
+            fr = body["from"]
+            if "Resolved" in fr:
+                acc.append(fr["Resolved"]["value"])
+            elif "UnResolved" in fr:
+                acc.append(("unresolved",))
+    for c in tree["children"]:
+        failing_from_values(c, acc)
+
+
+def run_C18(ctx):
+    res = Result("every function x argument queries over a document of unicode / numeric / boolean / mixed-type / empty / "
+                 "unresolved members x argument forms (let at rule and file level, inline right-hand side) + the composites "
+                 "parse_int(parse_string(n)) and json_parse(JSON text of D) == D; the values the implementation computes are "
+                 "read from its record tree and compared with an independent Python reference, and the whole evaluation with "
+                 "the Lean model; non-trivial = distinct (function, query, arguments, form)")
+    rng = random.Random(ctx.seed)
+    cases = c18_cases(ctx, rng)
+    results = vlib.correspond(cases, ctx.hp, ctx.mp)
+    absorb(res, results, "C18 function stream")
+    res.nontrivial = set()
+    raw = ctx.hp.map([{"id": i, "op": "case", "rules": c["rules"], "data": c["data"]} for i, c in enumerate(cases)])
+    for c, r, rw in zip(cases, results, raw):
+        res.stats["c18-fn:" + c["f"]] += 1
+        res.nontrivial.add((c["f"], c["q"], json.dumps(c["raw"]), c["form"]))
+        v = rw.get("verbose", {})
+        info = {"rules": c["rules"], "data": c["data"]}
+        if c["f"] == "roundtrip-int":
+            acc = []
+            if "ok" in v:
+                failing_from_values(v["ok"], acc)
+            if acc != [c["raw"][0]]:
+                res.judge_failures.append(dict(info, what="parse_int(parse_string(%s)) gave %s" % (c["raw"][0], acc if "ok" in v else v), **{"class": "c18-roundtrip"}))
+            continue
+        if c["f"] == "roundtrip-json":
+            st = r["impl"].get("rules")
+            if st != [["t", "PASS"]]:
+                res.judge_failures.append(dict(info, what="json_parse(JSON text of D) == D is %s" % (st or r["impl"]), **{"class": "c18-roundtrip"}))
+            continue
+        if c["form"] == "inline-rhs":
+            continue            # tie only (the values sit on the right-hand side)
+        args, unres = resolve_ref_query(c["q"], C18_DOC)
+        rawargs = list(c["raw"])
+        if c["f"] == "join":
+            rawargs[3] = unres
+        exp = ref_function(c["f"], args, rawargs)
+        if exp is None or exp == ("maybe-err",):
+            continue
+        if exp == ("err",):
+            if "err" not in v:
+                res.judge_failures.append(dict(info, what="%s on %s must raise an error, got %s" % (c["f"], c["q"], str(v)[:200]), **{"class": "c18-error-expected"}))
+            continue
+        if "ok" not in v:
+            res.judge_failures.append(dict(info, what="%s on %s raised %s, reference gives %s" % (c["f"], c["q"], {k: x for k, x in v.items() if k != "ok"}, exp), **{"class": "c18-spurious-error"}))
+            continue
+        acc = []
+        failing_from_values(v["ok"], acc)
+
+        def same(a, b):
+            if isinstance(a, float) or isinstance(b, float):
+                return isinstance(a, (int, float)) and isinstance(b, (int, float)) and not isinstance(a, bool) and not isinstance(b, bool) and float(a) == float(b)
+            return type(a) == type(b) and a == b
+        if len(acc) != len(exp) or not all(same(a, b) for a, b in zip(acc, exp)):
+            res.judge_failures.append(dict(info, what="%s(%s): implementation %s, reference %s" % (c["f"], ", ".join(map(str, c["raw"])), acc, exp), **{"class": "c18-value"}))
+        elif len(res.samples) < 5:
+            res.add_sample({"call": "%s(%s)" % (c["f"], ", ".join(map(str, c["raw"]))), "values": acc})
+    return res
+
+
+register("C18", ["Guard.Properties.C18"], run_C18)
